@@ -3,7 +3,7 @@
 # under /tmp/seed<tag>-<Cxx> and the hand-out for a seeding sub-agent in /tmp/seed<tag>-<Cxx>-out
 # (PROPERTY.txt = the text of the property + a one-line description of the changes earlier
 # testers delivered + a hint about a generic defender; PROMPT.txt = what the agent is told).
-# Nothing from /verif's checks goes into the hand-out.
+# Nothing from /verif's checks goes into the hand-out. HINT_FILE=<file> replaces the built-in hint.
 set -u
 TAG=$1; shift
 for p in "$@"; do
@@ -32,6 +32,8 @@ HINT=("ADVERSARIAL HINT: assume the defender runs a randomised differential test
  "specific gate triple on specific relative qubit positions; or sizes just above what a small-input tester generates, like 7+ qubits, "
  "65+ vertices, a denominator above 2^16, a circuit with 100+ gates), while still being reachable by legal use covered by the "
  "quantifier. State the estimated probability that a uniformly random small input triggers it.\n")
+if os.environ.get('HINT_FILE'):
+    HINT=open(os.environ['HINT_FILE']).read()
 for l in open('/verif/properties.jsonl'):
     p=json.loads(l)
     if p['id'] in props:
